@@ -135,7 +135,7 @@ def check(prop, tier, seed=0):
         for f, c in zip(futs, cells):
             try:
                 results.append(f.result())
-            except Exception as e:  # worker died
+            except BaseException as e:  # worker died
                 results.append(dict(cell=c.name, bounds=c.bounds, error=f"worker failed: {e!r}",
                                     paths=0, confirmed=0, ignored=0, unknown=0, exhausted=False,
                                     decisions=0, solver_queries=0, solver_s=0.0, goals=[],
@@ -254,7 +254,7 @@ def main(argv=None):
         seed = int(os.environ.get("VERIF_SEED", "0") or 0)
         try:
             return check(prop, tier, seed)
-        except Exception as e:  # harness / stub failure: never a verdict
+        except BaseException as e:  # harness / stub failure: never a verdict
             import traceback
             traceback.print_exc()
             print(f"INCONCLUSIVE property={prop} harness failure: {type(e).__name__}: {str(e)[:300]}")
